@@ -50,6 +50,11 @@ func (c RawConfiguration) QuorumCall(ctx context.Context, d QuorumCallData) (res
 		replies = make(map[uint32]protoreflect.ProtoMessage)
 	)
 
+	if expectedReplies == 0 {
+		// no node was targeted (the per node function skipped all of them)
+		return resp, QuorumCallError{cause: Incomplete, errors: errs, replies: len(replies)}
+	}
+
 	for {
 		select {
 		case r := <-replyChan:
